@@ -23,8 +23,12 @@ CHECKS = {
             "return a boolean (never an error) that is exactly the corresponding statement about the two languages; isempty likewise; "
             "different alphabets are refused. The relevance-flag skipping of the lazy product is justified inside the proof. "
             "isfinite is true exactly when the accepted word lengths are bounded (with constructive corollaries: true => every accepted word "
-            "shorter than |Q|; false => accepted words of unbounded length). == is a specification model (Hopcroft-Karp bookkeeping not "
-            "modelled; its boolean is compared).",
+            "shorter than |Q|; false => accepted words of unbounded length). == additionally has a mirror model of the code (Hopcroft-Karp over "
+            "(state, operand) pairs with the None sink, the networkx union-find as a parent forest with path compression and weights, the "
+            "explicit stack), proved for every symbol iteration order and every union-find tie-break to return within its fuel "
+            "(|Q_A|+|Q_B|+3 pops) and to be the same function as the specification model; path compression is proved unobservable "
+            "(forest run = flat run). The implementation's == is compared with both models, and the sequence of union calls observed by a "
+            "harness-side spy on networkx's UnionFind is compared call by call with the mirror model run under the observed schedule.",
             "", "7/C06"),
     "C04": ("Coq theorems about the lazy product + generic graph-to-DFA builder + differential correspondence via proved comparator",
             "Proved for all valid DFA pairs over a common alphabet and all words (unbounded): union, intersection, difference and symmetric "
@@ -46,8 +50,14 @@ CHECKS = {
             "", "7/C07"),
     "C09": ("Coq theorems about the verified NFA comparator (subset construction on the fly) + differential correspondence",
             "Proved for all valid NFA pairs (unbounded): whenever == / != return (always for <= 14 states in total) they are exactly language "
-            "(in)equality; the answer is symmetric and equals DFA equality of the determinisations. Specification model: the union-find "
-            "bookkeeping of NFA.__eq__ is not modelled, its boolean is compared on generated pairs incl. built-equivalent pairs.",
+            "(in)equality; the answer is symmetric and equals DFA equality of the determinisations. NFA.__eq__ additionally has a mirror model "
+            "of the code (Hopcroft-Karp over (subset state, operand) pairs, initial lambda closures, finality through the members' lambda "
+            "closures, networkx union-find as a parent forest with path compression and weights, explicit stack): for every symbol iteration order and union-find tie-break its "
+            "boolean is language equality whenever it returns, it agrees with the specification model, and for <= 14 states in total both "
+            "return and are the same function (path compression proved unobservable: forest run = flat run); the implementation's == (both "
+            "argument orders) is compared with both models on generated pairs incl. built-equivalent pairs, and the sequence of union "
+            "calls observed by a harness-side spy on networkx's UnionFind is compared call by call with the mirror model run under the "
+            "observed schedule.",
             "", "7/C09"),
     "C02": ("Coq theorems about executable NPDA/DPDA reader models (Python stack orientation, level-by-level generator, DPDA loop, "
             "constructor's nondeterminism scan) against a declarative textbook PDA semantics + differential correspondence against /repo",
